@@ -26,10 +26,10 @@ hash=$( (cd "$REPO" && find . -path ./.git -prune -o -type f -print0 | sort -z |
 SUT="$ROOT/$hash"
 exec 9>"$ROOT/.lock"
 flock 9
-if [ -f "$SUT/.ok" ]; then touch "$SUT/.ok"; echo "$SUT"; exit 0; fi
-# prune: builds not used for 6 hours, beyond the 12 most recent ones (a running check may still use an older build)
+if [ -f "$SUT/.ok" ]; then touch "$SUT/.ok" "$SUT"; echo "$SUT"; exit 0; fi
+# prune: builds not used for 6 hours, beyond the 24 most recently used ones (a running check may still use an older build)
 (find "$ROOT" -mindepth 2 -maxdepth 2 -name .ok -mmin +360 -printf '%h\n' 2>/dev/null || true) | xargs -r rm -rf
-(ls -1dt "$ROOT"/*/ 2>/dev/null || true) | tail -n +13 | xargs -r rm -rf
+(ls -1dt "$ROOT"/*/ 2>/dev/null || true) | tail -n +25 | xargs -r rm -rf
 rm -rf "$SUT"; mkdir -p "$SUT"
 {
   set -x
